@@ -273,7 +273,7 @@ def _bounds(ctx, py):
                and ast.unparse(loop.iter.args[0]) == "len(theta)" and len(loop.iter.args) == 1)
     ctx.ob("C01.kernel.bounds.loop_range", "c", ok_loop, "ast", 0.0, "for %s in %s" % (ast.unparse(loop.target), ast.unparse(loop.iter)))
     i, offset, n, N = z3.Ints("i offset n N")
-    env = {"i": i, "offset": offset}
+    env = {ast.unparse(loop.target): i, "offset": offset}
     # j = i + offset (read the assignment from the source)
     for st in loop.body:
         if isinstance(st, ast.Assign) and len(st.targets) == 1 and isinstance(st.targets[0], ast.Name):
